@@ -12,6 +12,7 @@ import cbor2
 import importlib.util
 import sys
 import os
+from collections.abc import Mapping
 from pathlib import Path
 from suit_generator.suit_sign_script_base import (
     SuitEnvelopeSignerBase,
@@ -27,6 +28,13 @@ SIGN_RECURSIVE_CMD = "recursive"
 log = logging.getLogger(__name__)
 
 SIGN_CMD = "sign"
+
+
+def _mutable_envelope(envelope):
+    """Return the envelope with a modifiable member map (cbor2 >= 6 decodes tag content as immutable)."""
+    if isinstance(envelope, cbor2.CBORTag) and isinstance(envelope.value, Mapping):
+        return cbor2.CBORTag(envelope.tag, dict(envelope.value))
+    return envelope
 
 
 def _import_module_from_path(module_name: str, file_path: Path):
@@ -151,7 +159,7 @@ class RecursiveSigner:
         if not isinstance(dependency_envelope, cbor2.CBORTag):
             raise ValueError(f"Dependency {dependency_name} in {self.envelope_name} is not a valid envelope.")
 
-        return dependency_envelope
+        return _mutable_envelope(dependency_envelope)
 
     def _sign(self):
         self.envelope = self.signer.sign_envelope(
@@ -265,7 +273,7 @@ def load_envelope(input_file: Path) -> cbor2.CBORTag:
     """Load suit envelope."""
     with open(input_file, "rb") as fh:
         envelope = cbor2.load(fh)
-    return envelope
+    return _mutable_envelope(envelope)
 
 
 def save_envelope(output_file: Path, envelope) -> None:
